@@ -96,6 +96,9 @@ impl Config {
             } else {
                 self.js_config.set(&key.replace("js.", ""), value);
             }
+        } else if SharedConfig::overrides_shared(key) {
+            // Any other language (c, cpp, dart, ...) can override what's in [`SharedConfig`] too
+            self.language_overrides.insert(key.to_string(), value);
         } else {
             self.shared_config.set(key, value)
         }
